@@ -50,20 +50,90 @@ def build_host():
     return deps, os.path.join(deps, rl[-1])
 
 
-def crate_text(items):
+def item_text(it, rend):
+    """The item's tokens as written in this variant: the original text, or one of its alternative renderings
+    (same tokens; other blanks, line breaks, comments)."""
+    k = rend.get(it["id"], 0) if rend else 0
+    alts = it.get("renderings") or []
+    return alts[k - 1] if 0 < k <= len(alts) else it["item"]
+
+
+def squeeze(text):
+    """Module text with all white space outside string literals removed. rustc's pretty-printer lays out the
+    user's own item (which is part of the printed module) following the blanks and line breaks of the source,
+    so layout is not derive_more's output; the *tokens* are, and string literals are kept byte for byte."""
+    out = []
+    i, n = 0, len(text)
+    while i < n:
+        ch = text[i]
+        if ch == '"':
+            j = i + 1
+            while j < n and text[j] != '"':
+                j += 2 if text[j] == "\\" else 1
+            out.append(text[i:j + 1])
+            i = j + 1
+        elif ch.isspace():
+            i += 1
+        else:
+            out.append(ch)
+            i += 1
+    return "".join(out)
+
+
+MACRO_ITEMS = [
+    # (derive, macro body with $name / $v from the call site and tokens of its own, invocation arguments)
+    ("FromStr", "($name:ident { $($v:ident),* }) => { #[derive(derive_more::FromStr)] pub enum $name { $($v,)* Unknown } }", "Probe { Alpha, Beta, Gamma }"),
+    ("IsVariant", "($name:ident { $($v:ident),* }) => { #[derive(derive_more::IsVariant)] pub enum $name { Other(u8), $($v,)* } }", "Probe { Alpha, Beta }"),
+    ("Unwrap", "($name:ident { $($v:ident),* }) => { #[derive(derive_more::Unwrap)] pub enum $name { $($v(i32),)* Rest(u8, u8) } }", "Probe { Alpha, Beta }"),
+    ("Debug", "($name:ident { $($f:ident),* }) => { #[derive(derive_more::Debug)] pub struct $name { own: u8, $($f: i32,)* tail: bool } }", "Probe { alpha, beta }"),
+    ("TryInto", "($name:ident { $($v:ident),* }) => { #[derive(derive_more::TryInto)] pub enum $name { $($v(i32),)* Wide(i64), Text(String) } }", "Probe { Alpha, Beta }"),
+]
+
+
+def item_text(it, rend):
+    """The item's tokens as written in this variant: the original text, or one of its alternative renderings
+    (same tokens; other blanks and line breaks)."""
+    if it.get("kind") == "macro":
+        return "mk_%d!(%s);" % (it["id"], it["invoke"])
+    k = rend.get(it["id"], 0) if rend else 0
+    alts = it.get("renderings") or []
+    return alts[k - 1] if 0 < k <= len(alts) else it["item"]
+
+
+def crate_text(items, rend=None, macros_file=None, macro_pad=0):
+    """Returns (source text, [(first line, last line, item id)], text of the macros file or None).
+    Items of kind `macro` are produced by a `macro_rules!` that lives in a *second file*: their tokens mix
+    spans of two files, whose line numbers the variant moves independently (`macro_pad` leading blank lines)."""
     L = ["#![allow(warnings)]"]
+    macs = [it for it in items if it.get("kind") == "macro"]
+    mtext = None
+    if macs:
+        L.append('#[macro_use] #[path = "%s"] mod macro_defs;' % macros_file)
+        M = [""] * macro_pad
+        for it in macs:
+            M.append("macro_rules! mk_%d { %s }" % (it["id"], it["macro"]))
+        mtext = "\n".join(M) + "\n"
+    ranges = []
     for it in items:
+        first = len(L) + 1
         L.append("mod case_%d {" % it["id"])
-        L.append("    #[derive(derive_more::%s)]" % it["derive"])
-        L.append("    " + it["item"])
+        if it.get("kind") != "macro":
+            L.append("    #[derive(derive_more::%s)]" % it["derive"])
+        L.extend(("    " + item_text(it, rend)).split("\n"))
         L.append("}")
-    return "\n".join(L) + "\n"
+        ranges.append((first, len(L), it["id"]))
+    return "\n".join(L) + "\n", ranges, mtext
 
 
-def run_rustc(tag, items, entropy, junk, deps, rlib):
+def run_rustc(tag, items, entropy, junk, deps, rlib, rend=None):
     os.makedirs(WORK, exist_ok=True)
     src = os.path.join(WORK, "case_%s.rs" % tag)
-    open(src, "w").write(crate_text(items))
+    mfile = os.path.join(WORK, "macros_%s.rs" % tag)
+    pad = (rend or {}).get("macro_pad", 0)
+    text, ranges, mtext = crate_text(items, rend, mfile, pad)
+    open(src, "w").write(text)
+    if mtext is not None:
+        open(mfile, "w").write(mtext)
     env = {"PATH": os.environ.get("PATH", "/usr/bin:/bin"), "HOME": os.environ.get("HOME", "/root"),
            "LD_PRELOAD": SHIM, "VERIF_ENTROPY_SEED": str(entropy)}
     for k in ("RUSTUP_HOME", "CARGO_HOME", "RUSTUP_TOOLCHAIN"):
@@ -85,7 +155,10 @@ def run_rustc(tag, items, entropy, junk, deps, rlib):
                 cur = None
             continue
         if cur is not None:
-            buf.append(line)
+            # blank lines are dropped: rustc's pretty-printer keeps the user's own blank lines inside the
+            # printed *item*, which is not derive_more's output
+            if line.strip() or line == "}":
+                buf.append(line)
             if line == "}":
                 mods[cur] = "\n".join(buf)
                 cur = None
@@ -122,30 +195,37 @@ def run_rustc(tag, items, entropy, junk, deps, rlib):
         if d.get("code") is not None and not is_panic:
             continue
         ln = sp.get("line_start", 0)
-        pos = (ln - 2) // 4
-        if ln >= 2 and 0 <= pos < len(items):
+        owner = [i for (a, b, i) in ranges if a <= ln <= b]
+        if owner:
             # of a panic only the fact is observed (the statement is about token sequences)
-            per_mod.setdefault(items[pos]["id"], []).append("derive panicked" if is_panic else "error: %s" % msg)
+            per_mod.setdefault(owner[0], []).append("derive panicked" if is_panic else "error: %s" % msg)
+    raw = dict(mods)
+    mods = {i: squeeze(t) for i, t in mods.items()}
     for i, ds in per_mod.items():
         if i in mods:
             mods[i] += "\n// diagnostics: " + " | ".join(sorted(ds))
-    try:
-        os.remove(src)
-    except OSError:
-        pass
+            raw[i] += "\n// diagnostics: " + " | ".join(sorted(ds))
+    run_rustc.last_raw = raw
+    for f in (src, mfile):
+        try:
+            os.remove(f)
+        except OSError:
+            pass
     return mods, panics, diags, p.returncode, p.stderr
 
 
 def pick_items(keys, rng, n_harvest):
     items = []
     for f in keys["families"]:
-        items.append({"derive": f["derive"], "item": f["item"], "kind": "family:" + f["family"]})
+        items.append({"derive": f["derive"], "item": f["item"], "renderings": f.get("renderings", []), "kind": "family:" + f["family"]})
     for f in keys["faults"]:
-        items.append({"derive": f["derive"], "item": f["item"], "kind": "fault"})
+        items.append({"derive": f["derive"], "item": f["item"], "renderings": f.get("renderings", []), "kind": "fault"})
     hv = list(keys["harvested"])
     rng.shuffle(hv)
     for h in hv[:n_harvest]:
-        items.append({"derive": h["derive"], "item": h["item"], "kind": "harvested"})
+        items.append({"derive": h["derive"], "item": h["item"], "renderings": h.get("renderings", []), "kind": "harvested"})
+    for d, body, inv in MACRO_ITEMS:
+        items.append({"derive": d, "item": "macro_rules! mk { %s }  mk!(%s);" % (body, inv), "macro": body, "invoke": inv, "renderings": [], "kind": "macro"})
     # every fault item twice (separate modules): whatever an expansion leaves behind when it fails
     # meets the very same failure again
     items += [dict(it, kind="fault-repeat") for it in items if it["kind"] == "fault"]
@@ -171,7 +251,15 @@ def variant_plan(rng, items, v, env_names=()):
     for n in env_names:  # variables the expanders were seen reading (discovered by layer A1)
         if rng.below(3):
             junk[n] = ["", "1", "0", "true", "v%d" % rng.below(1000)][rng.below(5)]
-    return {"v": v, "order": [it["id"] for it in order], "entropy": entropy, "junk": junk}
+    # the same tokens written differently (spans, source text behind the spans, line numbers all move)
+    rend = {}
+    if rng.below(3):
+        for it in order:
+            if it.get("renderings") and rng.below(2):
+                rend[it["id"]] = 1 + rng.below(len(it["renderings"]))
+    if rng.below(2):
+        rend["macro_pad"] = [1, 7, 40, 300, 2000][rng.below(5)]
+    return {"v": v, "order": [it["id"] for it in order], "entropy": entropy, "junk": junk, "rend": rend}
 
 
 def run(tier, seed, sessim_bin, env_names=()):
@@ -208,7 +296,7 @@ def run(tier, seed, sessim_bin, env_names=()):
 
     def do(plan):
         its = [by_id[i] for i in plan["order"]]
-        mods, panics, diags, _, _ = run_rustc("v%d" % plan["v"], its, plan["entropy"], plan["junk"], deps, rlib)
+        mods, panics, diags, _, _ = run_rustc("v%d" % plan["v"], its, plan["entropy"], plan["junk"], deps, rlib, plan["rend"])
         bad = [i for i in plan["order"] if mods.get(i) != ref[i]]
         return plan, mods, panics, diags, bad
 
@@ -232,15 +320,16 @@ def run(tier, seed, sessim_bin, env_names=()):
     return res
 
 
-def diverges(order, probe, entropy, junk, by_id, ref, deps, rlib, tag="min"):
-    mods, _, _, _, _ = run_rustc(tag, [by_id[i] for i in order], entropy, junk, deps, rlib)
+def diverges(order, probe, entropy, junk, by_id, ref, deps, rlib, tag="min", rend=None):
+    mods, _, _, _, _ = run_rustc(tag, [by_id[i] for i in order], entropy, junk, deps, rlib, rend)
     return mods.get(probe) != ref[probe], mods.get(probe)
 
 
 def minimise(seed, plan, probe, by_id, ref, deps, rlib):
     order, entropy, junk = list(plan["order"]), plan["entropy"], dict(plan["junk"])
+    rend = dict(plan.get("rend") or {})
     steps = 0
-    bad, _ = diverges([probe], probe, entropy, junk, by_id, ref, deps, rlib)
+    bad, _ = diverges([probe], probe, entropy, junk, by_id, ref, deps, rlib, rend=rend)
     if bad:
         order = [probe]
         steps += 1
@@ -255,7 +344,7 @@ def minimise(seed, plan, probe, by_id, ref, deps, rlib):
                 cand = others[:i] + others[i + chunk:]
                 # keep relative order; probe stays after the items that preceded it
                 cand_order = [x for x in order if x == probe or x in cand]
-                b, _ = diverges(cand_order, probe, entropy, junk, by_id, ref, deps, rlib)
+                b, _ = diverges(cand_order, probe, entropy, junk, by_id, ref, deps, rlib, rend=rend)
                 if b:
                     others = cand
                     order = cand_order
@@ -267,22 +356,32 @@ def minimise(seed, plan, probe, by_id, ref, deps, rlib):
                 break
             chunk = max(chunk // 2, 1)
     if junk:
-        b, _ = diverges(order, probe, entropy, {}, by_id, ref, deps, rlib)
+        b, _ = diverges(order, probe, entropy, {}, by_id, ref, deps, rlib, rend=rend)
         if b:
             junk = {}
             steps += 1
     if entropy != 0:
-        b, _ = diverges(order, probe, 0, junk, by_id, ref, deps, rlib)
+        b, _ = diverges(order, probe, 0, junk, by_id, ref, deps, rlib, rend=rend)
         if b:
             entropy = 0
             steps += 1
-    _, observed = diverges(order, probe, entropy, junk, by_id, ref, deps, rlib)
+    # simpler writing: drop the alternative renderings one at a time (the probe's last)
+    for i in [x for x in list(rend) if x != probe and x != "macro_pad"] + ([probe] if probe in rend else []) + (["macro_pad"] if "macro_pad" in rend else []):
+        cand = {k: v for k, v in rend.items() if k != i}
+        b, _ = diverges(order, probe, entropy, junk, by_id, ref, deps, rlib, rend=cand)
+        if b:
+            rend = cand
+            steps += 1
+    rend = {k: v for k, v in rend.items() if k in order or k == "macro_pad"}
+    _, observed = diverges(order, probe, entropy, junk, by_id, ref, deps, rlib, rend=rend)
     it = by_id[probe]
-    why = ("depends on the process's entropy (hash seeds)" if len(order) == 1 and entropy != 0 else
+    why = ("depends on where the `macro_rules!` that produces part of the item sits in its own file (line numbers of two files compared)" if len(order) == 1 and "macro_pad" in rend else
+           "depends on how the item's tokens are written (blanks, line breaks, comments: span positions / source text)" if len(order) == 1 and probe in rend else
+           "depends on the process's entropy (hash seeds)" if len(order) == 1 and entropy != 0 else
            "depends on the other items expanded in the same rustc process" if len(order) > 1 else "depends on the process environment")
     rp = {"property": "C19", "engine": "sessim", "layer": "A3-real-rustc", "seed": seed,
           "what": "derive(%s) on `%s`: expansion inside real rustc %s" % (it["derive"], it["item"][:120], why),
-          "items": [by_id[i] for i in order], "probe": probe, "entropy_seed": entropy, "junk": junk,
+          "items": [by_id[i] for i in order], "probe": probe, "entropy_seed": entropy, "junk": junk, "rend": {str(k): v for k, v in rend.items()},
           "expected_text": ref[probe], "observed_text": observed, "minimise_steps": steps, "original_items": len(plan["order"])}
     path = os.path.join(REPLAYS, "C19-%d-a3-v%d.json" % (seed, plan["v"]))
     json.dump(rp, open(path, "w"), indent=1, ensure_ascii=False)
@@ -295,7 +394,8 @@ def replay(path):
     by_id = {it["id"]: it for it in rp["items"]}
     probe = rp["probe"]
     alone, _, _, _, _ = run_rustc("rp_ref", [by_id[probe]], 0, {}, deps, rlib)
-    mods, _, _, _, _ = run_rustc("rp_var", rp["items"], rp["entropy_seed"], rp.get("junk", {}), deps, rlib)
+    rend = {(k if k == "macro_pad" else int(k)): v for k, v in (rp.get("rend") or {}).items()}
+    mods, _, _, _, _ = run_rustc("rp_var", rp["items"], rp["entropy_seed"], rp.get("junk", {}), deps, rlib, rend)
     print(json.dumps({"probe": by_id[probe], "expected_text": alone.get(probe), "observed_text": mods.get(probe)}, indent=1, ensure_ascii=False))
     if alone.get(probe) != mods.get(probe):
         print("VIOLATION property=C19 replay=%s" % path)
